@@ -96,6 +96,11 @@ CHECKS = {
    text="The layout map of PcapFile.tla makes every field of every block header, option and record enumerable; NgReaderGen.tla lets TLC enumerate (base file, field locator, value class) corruptions for pcap, pcapng and snoop and stream chunkings, with an ideal reader; each corruption is applied to a really written file (also gzip-wrapped) and read to the end in child processes under an address-space cap through whole / 1-byte / TLC-chosen chunkings and with injected I/O errors; NgReader.tla accepts iff no panic/hang/abort, datalen = caplen <= len, per-call allocation within c0 + c1*(bytes present + snaplen), identical results for all chunkings, and injected errors surfacing as errors; seeded random corruptions on the same map complete the space.",
    design_ref="4/C15", technique="TLC-enumerated corruptions over a TLA+ layout map + replay in capped child processes + TLC trace validation of the reader envelope",
    note="Allocation bound constants c0 = 1 MiB, c1 = 8; gzip streams are checked for the envelope only."),
+ "C05": dict(
+   category="model_checking",
+   text="Parser.tla transcribes the LayersDecoder/DecodeLayers loop over decoder scripts and a container set; TLC proves ParserResult(script,S) conforms to LeadingRun(EagerResult(script),S) for every script <= bound and every S and exports the pairs; each is replayed with scripted DecodingLayers through Map/Sparse/Array/custom containers (IgnoreUnsupported, warm parser, non-empty slice) and through NewPacket, and TLC validates parser-vs-packet; the same LeadingRun judges real layers (fixtures, mutations, option/hop-by-hop splices; subsets x 4 containers; per-layer digests, error text, Truncated); TLC-enumerated pairs/triples over seeded pools compare reused vs fresh layer objects through a memo (ParserSeq.tla).",
+   design_ref="4/C05", technique="TLA+ impl/prop spec (TLC exhaustive) + behaviour replay + TLC trace validation + memo determinism",
+   note="Verdict = real parser differs from the leading run of the real packet, or reused != fresh; field equality is a reflection digest over exported fields; real inputs are sampled; the IPv6 jumbogram payload convention is a recorded known finding."),
  "C18": dict(
    category="model_checking",
    text="SerializeBuffer.tla: TLC proves exhaustively (all op sequences to the bound) that the transcription of writer.go refines the abstract buffer; every exported behaviour is replayed on the real buffer and every real step is validated by TLC against the abstract layer (contents, returned-slice length, window position, layers).",
